@@ -8,6 +8,7 @@ Fault kinds: callable_raises, format_raises, nested_build.
 """
 from __future__ import annotations
 
+import collections
 import copy
 import functools
 import re
@@ -207,10 +208,61 @@ def gen_case(world, tier, prop):
   shape = frng.choice(full) if frng.random() < 0.75 else frng.choice(degraded)
   fmt = frng.choice([None, None, None, 'exc', 'base'])
   nested = frng.random() < 0.3
-  return {'defs': defs, 'root': root, 'shape': shape, 'fmt': fmt,
+  case = {'defs': defs, 'root': root, 'shape': shape, 'fmt': fmt,
           'nested': nested, 'only_uid': None,
           'mutating': frng.random() < 0.25, 'sticky': frng.random() < 0.2,
           'refused': frng.random() < 0.2, 'late': use_late}
+  erng = world.stream('edit')
+  if erng.random() < 0.3:
+    case['edits'] = gen_edits(erng, defs, node_ids, new_id, token)
+  return case
+
+
+EDITABLE = {'n0': ['x', 'y', 'z'], 'n1': ['y'], 'N2': ['x', 'k'], 'N3': ['x'],
+            'n5': ['x'], 'n6': ['x', 'y', 'k'], 'n0b': ['x', 'y', 'w']}
+
+
+def gen_edits(rng, defs, node_ids, new_id, token):
+  """Edits applied BETWEEN builds of the same configuration (some of them while
+  history tracking is suspended): attach a new / an existing Buildable, replace
+  or unset an argument.  Only earlier-defined nodes are attached (no cycles)."""
+  by_id = {d['id']: d for d in defs if 'node' in d}
+
+  def uid(d):
+    nd = d['node']
+    return nd['kwargs']['uid'] if 'uid' in nd['kwargs'] else nd['args'][0]
+  uids = [uid(d) for d in by_id.values()]
+  # (equal-but-distinct twins carry one uid; they stay equal, i.e. unedited)
+  editable = [i for i in node_ids if uids.count(uid(by_id[i])) == 1]
+  edits = []
+  for _ in range(rng.randint(1, 4)):
+    if not editable:
+      break
+    i = rng.choice(editable)
+    names = EDITABLE.get(by_id[i]['node']['fn'])
+    if not names:
+      continue
+    earlier = [j for j in node_ids if j < i]
+
+    def val():
+      r = rng.random()
+      if r < 0.3 or not earlier:
+        return token()
+      return {'share': rng.choice(earlier)}
+    r = rng.random()
+    if r < 0.45:
+      nid = new_id()
+      v = {'node': {'btype': 'Config', 'fn': 'n0', 'args': [],
+                    'kwargs': {'uid': nid, 'x': val()}}, 'id': nid}
+    elif r < 0.6:
+      v = {'list': [val(), val()], 'id': new_id()}
+    else:
+      v = val()
+    e = {'n': i, 'name': rng.choice(names), 'v': v, 'suspend': rng.random() < 0.5}
+    if rng.random() < 0.15:
+      e['del'] = True
+    edits.append(e)
+  return edits
 
 
 def _refresh_ids(x, base):
@@ -430,115 +482,151 @@ def run(case):
           bump(faults, 'refused_op')
         else:
           raise AssertionError('harness: update_callable was expected to be refused')
-  nodes = reachable_nodes(mroot)
-  cfg_nodes = [n for n in nodes if n.btype == 'Config']
-  if not cfg_nodes:
-    res['discarded'] = 'no-config-node'
-    return res
-  nodes_by_uid = {}
-  for n in cfg_nodes:
-    nodes_by_uid.setdefault(uid_of(n), []).append(n)
-  dep_uids = {uid_of(n): {uid_of(d) for d in deps_of(n) if d.btype == 'Config'}
-              for n in cfg_nodes}
-  if len(nodes) > len({uid_of(n) for n in nodes}):
-    bump(probes, 'equal_but_distinct_nodes')
-  if any(isinstance(o, stubmod.TempBox) for o in _all_values(mroot)):
-    bump(probes, 'tempbox_in_dag')
-  depth = _depth(mroot)
-  if depth >= 20:
-    bump(probes, 'deep_chain')
-  res['case_hash'] = stable_hash([case['defs'], case['root']])
-  before = C.canon(root)
-  res['state_hashes'].append(stable_hash(before))
+  def fault_free_phase(n_builds, label):
+    """Direct evaluation of the CURRENT model graph, then n_builds fault-free
+    fdl.build calls checked against it.  Returns the derived tables, or None
+    if the run is over (violation / discarded)."""
+    nodes = reachable_nodes(mroot)
+    cfg_nodes = [n for n in nodes if n.btype == 'Config']
+    if not cfg_nodes:
+      res['discarded'] = 'no-config-node'
+      return None
+    nodes_by_uid = {}
+    for n in cfg_nodes:
+      nodes_by_uid.setdefault(uid_of(n), []).append(n)
+    dep_uids = {uid_of(n): {uid_of(d) for d in deps_of(n) if d.btype == 'Config'}
+                for n in cfg_nodes}
+    if len(nodes) > len({uid_of(n) for n in nodes}):
+      bump(probes, 'equal_but_distinct_nodes')
+    if any(isinstance(o, stubmod.TempBox) for o in _all_values(mroot)):
+      bump(probes, 'tempbox_in_dag')
+    depth = _depth(mroot)
+    if depth >= 20:
+      bump(probes, 'deep_chain')
+    res['case_hash'] = stable_hash([case['defs'], case['root']])
+    before = C.canon(root)
+    res['state_hashes'].append(stable_hash(before))
 
-  # ---- expected result: the property sentence executed ------------------
-  try:
-    expected = M.model_build(mroot, {})
-  except (M.Unformable, TypeError):
-    res['discarded'] = 'unformable-dag'
-    return res
-  exp_canon = C.canon(expected)
-  n_direct = len(rec.log)
-  if n_direct != len(cfg_nodes):
-    raise AssertionError('oracle: direct evaluation did not call once per node')
-
-  # ---- C02: two fault-free builds ----------------------------------------
-  results = []
-  for b in range(2):
+    # ---- expected result: the property sentence executed ------------------
     del rec.log[:]
     try:
-      out = fdl.build(root)
-    except RecursionError:
-      if case.get('over_budget'):
-        # beyond the recursion budget the property does not ask for a result;
-        # what it forbids is a build that RETURNS after redoing invocations
-        res['discarded'] = 'beyond-recursion-budget'
-        res['probes']['over_budget_chain_refused'] = 1
-        return res
-      raise
-    except Exception as e:  # pylint: disable=broad-except
-      viols.append(V('C02', 'fault-free-build-raised',
-                     f'build #{b} raised {type(e).__name__}: {C.norm_text(str(e))[:300]}'))
-      return res
-    res['steps'] += len(rec.log)
-    results.append(out)
-    log = list(rec.log)
-    now = C.canon(root)
-    if now != before:
-      viols.append(V('C05', 'config-modified',
-                     f'fault-free build #{b} modified the configuration: '
-                     + '; '.join(C.diff(before, now)), shape='none', fmt=None))
-      return res
-    got = C.canon(out)
-    if got != exp_canon:
-      viols.append(V('C02', 'graph-mismatch',
-                     f'build #{b}: built graph != direct evaluation: '
-                     + '; '.join(C.diff(exp_canon, got))))
-      return res
-    if len(log) != len(cfg_nodes):
-      viols.append(V('C02', 'invocation-count',
-                     f'build #{b}: {len(log)} invocations for '
-                     f'{len(cfg_nodes)} distinct Config instances'))
-      return res
-    errs = []
-    mapping = {}
-    mirror(mroot, out, mapping, errs)
-    recs = {}
-    for mid, (mn, bv) in mapping.items():
-      if isinstance(mn, M.MNode) and mn.btype == 'Config':
-        r = bv if isinstance(bv, stubmod.Rec) else getattr(bv, '_fsim_rec', None)
-        if r is None:
-          continue
-        if id(r) in recs and recs[id(r)] is not mn:
-          errs.append('two distinct Buildable instances share one built object')
-        recs[id(r)] = mn
-    if not errs and {id(r) for r in log} != set(recs):
-      errs.append('set of invocations != set of results referenced by the graph')
-    if not errs:
-      for r in log:
-        mn = recs[id(r)]
-        for d in deps_of(mn):
-          if d.btype != 'Config':
+      expected = M.model_build(mroot, {})
+    except (M.Unformable, TypeError):
+      res['discarded'] = 'unformable-dag'
+      return None
+    exp_canon = C.canon(expected)
+    n_direct = len(rec.log)
+    if n_direct != len(cfg_nodes):
+      raise AssertionError('oracle: direct evaluation did not call once per node')
+
+    # ---- C02: two fault-free builds ----------------------------------------
+    results = []
+    for b in range(n_builds):
+      del rec.log[:]
+      try:
+        out = fdl.build(root)
+      except RecursionError:
+        if case.get('over_budget'):
+          # beyond the recursion budget the property does not ask for a result;
+          # what it forbids is a build that RETURNS after redoing invocations
+          res['discarded'] = 'beyond-recursion-budget'
+          res['probes']['over_budget_chain_refused'] = 1
+          return None
+        raise
+      except Exception as e:  # pylint: disable=broad-except
+        viols.append(V('C02', 'fault-free-build-raised',
+                       f'{label}build #{b} raised {type(e).__name__}: {C.norm_text(str(e))[:300]}'))
+        return None
+      res['steps'] += len(rec.log)
+      results.append(out)
+      log = list(rec.log)
+      now = C.canon(root)
+      if now != before:
+        viols.append(V('C05', 'config-modified',
+                       f'{label}fault-free build #{b} modified the configuration: '
+                       + '; '.join(C.diff(before, now)), shape='none', fmt=None))
+        return None
+      got = C.canon(out)
+      if got != exp_canon:
+        viols.append(V('C02', 'graph-mismatch',
+                       f'{label}build #{b}: built graph != direct evaluation: '
+                       + '; '.join(C.diff(exp_canon, got))))
+        return None
+      if len(log) != len(cfg_nodes):
+        viols.append(V('C02', 'invocation-count',
+                       f'{label}build #{b}: {len(log)} invocations for '
+                       f'{len(cfg_nodes)} distinct Config instances'))
+        return None
+      errs = []
+      mapping = {}
+      mirror(mroot, out, mapping, errs)
+      recs = {}
+      for mid, (mn, bv) in mapping.items():
+        if isinstance(mn, M.MNode) and mn.btype == 'Config':
+          r = bv if isinstance(bv, stubmod.Rec) else getattr(bv, '_fsim_rec', None)
+          if r is None:
             continue
-          dr = mapping[id(d)][1]
-          dr = dr if isinstance(dr, stubmod.Rec) else dr._fsim_rec
-          if dr.serial > r.serial:
-            errs.append(f'uid {uid_of(mn)} invoked before its dependency '
-                        f'uid {uid_of(d)}')
-    if errs:
-      viols.append(V('C02', 'identity-or-order', f'build #{b}: ' + '; '.join(errs[:3])))
+          if id(r) in recs and recs[id(r)] is not mn:
+            errs.append('two distinct Buildable instances share one built object')
+          recs[id(r)] = mn
+      if not errs and {id(r) for r in log} != set(recs):
+        errs.append('set of invocations != set of results referenced by the graph')
+      if not errs:
+        for r in log:
+          mn = recs[id(r)]
+          for d in deps_of(mn):
+            if d.btype != 'Config':
+              continue
+            dr = mapping[id(d)][1]
+            dr = dr if isinstance(dr, stubmod.Rec) else dr._fsim_rec
+            if dr.serial > r.serial:
+              errs.append(f'uid {uid_of(mn)} invoked before its dependency '
+                          f'uid {uid_of(d)}')
+      if errs:
+        viols.append(V('C02', 'identity-or-order', f'{label}build #{b}: ' + '; '.join(errs[:3])))
+        return None
+    shared = (set(built_objects(results[0])) & set(built_objects(results[1]))
+              if len(results) > 1 else None)
+    if shared:
+      viols.append(V('C02', 'builds-share-objects',
+                     f'{len(shared)} built object(s) are shared between two '
+                     'separate fdl.build calls'))
+      return None
+    if C.canon(root) != before:
+      viols.append(V('C05', 'config-modified', 'fault-free build modified the config',
+                     shape='none', fmt=None))
+      return None
+    bump(probes, 'fault_free_builds', n_builds)
+    return (nodes, cfg_nodes, nodes_by_uid, dep_uids, exp_canon, before)
+
+
+  tables = fault_free_phase(2, '')
+  if tables is None:
+    return res
+  if case.get('edits'):
+    # ---- history: the same configuration is edited and built again ------
+    from fiddle._src import history as _history
+    import contextlib
+    for e in case['edits']:
+      nm, ni = mk_m.memo[e['n']], mk_i.memo[e['n']]
+      if e.get('del'):
+        if e['name'] not in nm.named:
+          continue
+        nm.delattr(e['name'])
+        with (_history.suspend_tracking() if e['suspend'] else contextlib.nullcontext()):
+          delattr(ni, e['name'])
+      else:
+        nm.setattr(e['name'], mk_m(e['v']))
+        v_i = mk_i(e['v'])
+        with (_history.suspend_tracking() if e['suspend'] else contextlib.nullcontext()):
+          setattr(ni, e['name'], v_i)
+      bump(probes, 'edit_between_builds')
+      if e['suspend']:
+        bump(probes, 'edit_while_tracking_suspended')
+    tables = fault_free_phase(2, 'after edits: ')
+    if tables is None:
       return res
-  shared = set(built_objects(results[0])) & set(built_objects(results[1]))
-  if shared:
-    viols.append(V('C02', 'builds-share-objects',
-                   f'{len(shared)} built object(s) are shared between two '
-                   'separate fdl.build calls'))
-    return res
-  if C.canon(root) != before:
-    viols.append(V('C05', 'config-modified', 'fault-free build modified the config',
-                   shape='none', fmt=None))
-    return res
-  bump(probes, 'fault_free_builds', 2)
+  nodes, cfg_nodes, nodes_by_uid, dep_uids, exp_canon, before = tables
 
   # ---- C05: every Config node as the failing node ------------------------
   shape, fmt = case['shape'], case['fmt']
@@ -588,6 +676,14 @@ def run(case):
     if escaped is None:
       viols.append(V('C05', 'failure-swallowed',
                      f'callable uid {u} raised {shape} but build returned', **tag))
+      counts = collections.Counter(log_uid(r) for r in log)
+      twice = sorted(str(k) for k, c in counts.items()
+                     if c > len(nodes_by_uid.get(k, [None])))
+      if twice:
+        viols.append(V('C02', 'invoked-more-than-once',
+                       f'fdl.build returned after invoking uid(s) {twice[:3]} more '
+                       f'often than there are Buildable instances (the callable of '
+                       f'uid {u} raised {shape} the first time)'))
       if len(log) < len(cfg_nodes):
         viols.append(V('C02', 'incomplete-build-returned',
                        f'fdl.build returned normally although only {len(log)} of '
@@ -778,7 +874,20 @@ def shrink_candidates(case):
     del c['defs'][i]
     c['defs'] = _replace_share(c['defs'], sid, 4242)
     c['root'] = _replace_share(c['root'], sid, 4242)
+    if c.get('edits'):
+      c['edits'] = [dict(e, v=_replace_share(e['v'], sid, 4242))
+                    for e in c['edits'] if e['n'] != sid]
     if isinstance(c['root'], dict):
+      yield c
+  # drop edits made between builds
+  for i in range(len(case.get('edits') or [])):
+    c = copy.deepcopy(case)
+    del c['edits'][i]
+    yield c
+  for flag in ('mutating', 'sticky', 'refused', 'late'):
+    if case.get(flag):
+      c = copy.deepcopy(case)
+      c[flag] = False
       yield c
   # root := a single node
   for d in reversed(defs):
